@@ -61,7 +61,7 @@ V("C08", "neg_count_overlaps", "violation", (EIG, "np.count_nonzero(mu_real < -s
 V("C08", "zero_band_strict", "violation", (EIG, "np.count_nonzero(abs(mu_real) <= self.config.tol)", "np.count_nonzero(abs(mu_real) < self.config.tol)"), rule="C08.partition")
 V("C08", "reduce_sign", "violation", (EIG, "self.fxy = (fx - fy * self.gyx)", "self.fxy = (fx + fy * self.gyx)"), rule="C08.formula")
 V("C08", "reduce_order", "violation", (EIG, "self.fxy = (fx - fy * self.gyx)", "self.fxy = (fx - self.gyx * fy)"), rule="C08.formula")
-V("C08", "reduce_wrong_solve", "violation", (EIG, "        self.gyx = matrix(gx)\n        self.solver.linsolve(gy, self.gyx)", "        self.gyx = matrix(gy)\n        self.solver.linsolve(gx, self.gyx)"), rule="C08.formula")
+V("C08", "reduce_wrong_solve", "violation", (EIG, "        self.gyx = matrix(gx)\n        # use the returned solution: not every back-end overwrites the right-hand side in place\n        sol = self.solver.linsolve(gy, self.gyx)", "        self.gyx = matrix(gy)\n        sol = self.solver.linsolve(gx, self.gyx)"), rule="C08.formula")
 V("C08", "pfactor_axis", "violation", (EIG, "pfactor[item, :] /= W_abs[item]", "pfactor[:, item] /= W_abs[item]"), rule="C08.axes")
 V("C08", "pfactor_no_transpose", "violation", (EIG, "        pfactor = pfactor.T\n", ""), rule="C08.axes")
 V("C08", "double_scaling", "violation", (EIG, "nTf = np.ones(self.nz_counts)", "nTf = np.delete(self.system.dae.Tf, self.zstate_idx)"), rule="C08.scaling")
@@ -211,7 +211,7 @@ V("C14", "resume_rebuilds_schedule", "violation", (TDS, "        self.calc_h(res
 V("C14", "pbar_kept", "violation", (TDS, "        self.pbar.close()\n        self.pbar = None\n", "        self.pbar.close()\n"), rule="C14.resume")
 V("C14", "snapshot_no_strip", "violation", (SNAP, "    system.remove_pycapsule()\n", ""), rule="C14.snapshot")
 V("C14", "snapshot_fix_before_load", "violation", (SNAP, "    # point the \"view arrays\" to the correct memory\n    fix_view_arrays(system)\n", ""), rule="C14.snapshot")
-V("C14", "clear_keeps_factor", "violation", ("andes/linsolvers/suitesparse.py", "        self.F = None   # symbolic factorization\n        self.N = None   # numeric factorization\n        self.factorize = True\n        self.use_linsolve = False", "        self.F = None   # symbolic factorization\n        self.N = None   # numeric factorization\n        self.use_linsolve = False"), rule="C14.snapshot")
+V("C14", "clear_keeps_factor", "violation", ("andes/linsolvers/suitesparse.py", "        self._pat = None  # sparsity pattern `F` belongs to\n        self.factorize = True\n        self.use_linsolve = False", "        self._pat = None  # sparsity pattern `F` belongs to\n        self.use_linsolve = False"), rule="C14.snapshot")
 V("C14", "benign_resume_log", "silent", (TDS, "        logger.debug(\"Resuming from t=%.4fs.\", system.dae.t)", "        logger.debug(\"Resuming from time t=%.6fs.\", system.dae.t)"))
 
 # ---------------- C15
@@ -304,3 +304,6 @@ V("C15", "unpack_keeps_stale_dataframes", "violation", (DAEF, "            for n
 V("C15", "npz_first_chunk_from_cached_view", "violation", (DAEF, "                # `txyz` is unpacked automatically on its first access only\n                self.ts.unpack()\n", ""), rule="C15.fresh")
 V("C15", "csv_header_body_different_lists", "violation", ("andes/plot.py", "        body = self.get_values(idx)\n", "        idx = sorted(idx)\n        body = self.get_values(idx)\n"), rule="C15.fresh")
 V("C20", "alt_enumeration_as_string", "violation", ("andes/models/static/pq.py", "                              pq2z=(0, 1),", "                              pq2z=\"(0, 1)\","), rule="C20.alternatives")
+V("C16", "klu_pattern_guard_removed", "violation", (SS, "        if self.factorize is False and not self._same_pattern(pattern):\n            self.factorize = True\n", ""), rule="C16.stale-symbolic")
+V("C16", "klu_pattern_guard_nnz_only", "violation", (SS, "        return (pat is not None) and np.array_equal(pat[0], pattern[0]) and np.array_equal(pat[1], pattern[1])", "        return (pat is not None) and len(pat[1]) > 0"), rule="C16.stale-symbolic")
+V("C16", "eig_reduce_ignores_linsolve_result", "violation", (EIG, "        sol = self.solver.linsolve(gy, self.gyx)\n        self.gyx = matrix(np.reshape(sol, self.gyx.size))\n", "        self.solver.linsolve(gy, self.gyx)\n"), rule="C16.inplace-contract")
